@@ -195,6 +195,23 @@ def TeamOp.apply : TeamOp C H → Team C H → Team C H
   | .load (some ms), t => update (teamHash hashOf) (resetOf "team" "load") ms t
   | .load none, t => t
 
+/-! helper lemmas about `teamHash` -/
+theorem signatureVal_signatureOp (m : Cached C H) :
+    signatureVal hashOf (signatureOp hashOf m) = signatureVal hashOf m := by
+  unfold signatureOp signatureVal
+  by_cases e : isEmpty m.sig = true
+  · simp only [e, if_true]
+    by_cases e2 : isEmpty (hashOf m.content) = true <;> simp [e2]
+  · simp [e]
+
+theorem teamHash_map_signatureOp (ms : List (Cached C H)) :
+    teamHash hashOf (ms.map (signatureOp hashOf)) = teamHash hashOf ms := by
+  unfold teamHash
+  generalize (empty : H) = acc
+  induction ms generalizing acc with
+  | nil => rfl
+  | cons m t ih => simp only [List.map_cons, List.foldl_cons, signatureVal_signatureOp]; exact ih _
+
 end team
 
 end Vita.C03
